@@ -61,7 +61,7 @@ def main():
     if "--neutral-only" in sys.argv:
         names = []
     base = {pid: findings(pid, REPO) for pid in PIDS}
-    with ProcessPoolExecutor(max_workers=12, max_tasks_per_child=6) as ex:
+    with ProcessPoolExecutor(max_workers=14) as ex:
         results = list(ex.map(job, names))
     caught_own = caught_any = 0
     for name, out, err in results:
@@ -90,7 +90,7 @@ def main():
     nd = VERIF / "neutral"
     if nd.is_dir():
         nnames = sorted(p.name for p in nd.iterdir() if (p / "meta.json").is_file())
-        with ProcessPoolExecutor(max_workers=12, max_tasks_per_child=6) as ex:
+        with ProcessPoolExecutor(max_workers=14) as ex:
             nres = list(ex.map(job_neutral, nnames))
         n_alarm = n_broken = 0
         for name, out, err in nres:
